@@ -148,6 +148,9 @@ structure TSpec (α : Type) where
   now : Nat := 0
   afLvl : Option Nat := none   -- level applied at the last non-reset clock edge (none: flag still holds its reset value)
   aeLvl : Option Nat := none
+  sinceFree : Option Nat := none   -- clock edges since room was last freed (a commitPop that committed something); none = never
+  req : Nat := 0                   -- requested minimum depth
+  lr : Nat := 0
 
 def tcheck [BEq α] (N M lw : Nat) (q : TSpec α) (e : TEv α) (o : TOut α) : List String × TSpec α :=
   -- flags, levels and sizes are checked in every cycle from power-on (nothing is held while the reset is asserted);
@@ -196,8 +199,10 @@ def tcheck [BEq α] (N M lw : Nat) (q : TSpec α) (e : TEv α) (o : TOut α) : L
     -- size outputs already include this cycle's operations
     let v8 := if o.pushSize < com'.length + tent'.length - gc' then ["trans-push-size-optimistic"] else []
     let v9 := if o.popSize > com'.length - (gc' + gt') then ["trans-pop-size-optimistic"] else []
-    (v0 ++ v1 ++ v2 ++ v3 ++ v4 ++ v5 ++ v6 ++ v7 ++ v8 ++ v9,
-     { com := com', comAt := comAt', tent := tent', gc := gc', gt := gt', now := q.now + 1
+    let settled := match q.sinceFree with | none => true | some n => n ≥ q.lr + 2
+    let v10 := if occ < q.req && settled && (o.full || (e.pushReq && !o.pushValid)) then ["capacity-below-request"] else []
+    (v0 ++ v1 ++ v2 ++ v3 ++ v4 ++ v5 ++ v6 ++ v7 ++ v8 ++ v9 ++ v10,
+     { com := com', req := q.req, lr := q.lr, sinceFree := (if gc' > q.gc then some 0 else q.sinceFree.map (· + 1)), comAt := comAt', tent := tent', gc := gc', gt := gt', now := q.now + 1
        afLvl := some e.afLevel, aeLvl := some (e.aeLevel % M) })
 
 end Gatery.C15
